@@ -36,9 +36,10 @@ def main():
         problems.append("BROADCAST_ADDRESS not found as an integer literal")
     lines = ["(* GENERATED on every run by tools/gen_consts.py from /repo/src/event/event_code.rs and /repo/src/protocol.rs - do not edit *)",
              "Require Import RP.Model.Base.",
-             "Definition source_codes : list N := [%s]." % "; ".join(str(v if v is not None else 4294967295) for v in vals),
+             "(* None = the constant is not written as an integer literal (not tied; the correspondence streams still cover it) *)",
+             "Definition source_codes : list (option N) := [%s]." % "; ".join(("Some %d" % v) if v is not None else "None" for v in vals),
              "Definition source_extra_codes : list N := [%s]." % "; ".join(str(consts[k]) for k in extra),
-             "Definition source_broadcast : N := %s." % (bcast if bcast is not None else 4294967295),
+             "Definition source_broadcast : option N := %s." % (("Some %d" % bcast) if bcast is not None else "None"),
              "(* problems: %s *)" % ("; ".join(problems) if problems else "none"), ""]
     text = "\n".join(lines)
     old = open(OUT).read() if os.path.exists(OUT) else None
